@@ -10,8 +10,6 @@ theorem nextReq_pc_cases (k : Caller) : (nextReq k).pc = .relO ∨ (nextReq k).p
   unfold nextReq; split
   · by_cases h : k.kind = .multi <;> simp [h]
   · simp
-theorem afterConnected_pc_cases (k : Caller) : (afterConnected k).pc = .done ∨ (afterConnected k).pc = .acqI := by
-  unfold afterConnected; by_cases h : k.kind = .poll <;> simp [h]
 theorem toFlush_pc_cases (s : State) (k : Caller) : (toFlush s k).pc = .done ∨ (toFlush s k).pc = .fail ∨ (toFlush s k).pc = .flush := by
   unfold toFlush; split
   · rcases failTo_pc2 k with h | h <;> simp [h]
@@ -22,7 +20,8 @@ set_option hygiene false in
 macro "pc_contra" : tactic => `(tactic| first
   | (rcases failTo_pc2 _ with h' | h' <;> rw [h'] at hp <;> simp at hp; done)
   | (rcases nextReq_pc_cases _ with h' | h' | h' <;> rw [h'] at hp <;> simp at hp; done)
-  | (rcases afterConnected_pc_cases _ with h' | h' <;> rw [h'] at hp <;> simp at hp; done)
+  | (rcases afterConnected_pc_cases _ _ (by first | exact hf.2 | rfl) with h' | h' | h' <;> rw [h'] at hp <;> simp at hp; done)
+  | (rcases afterIdent_pc_cases _ _ (by first | exact hf.2 | rfl) with h' | h' | h' | ⟨l, h'⟩ <;> rw [h'] at hp <;> simp at hp; done)
   | (rcases toFlush_pc_cases _ _ with h' | h' | h' <;> rw [h'] at hp <;> simp at hp; done))
 
 /-- an attempt on behalf of a communicate call is under way: the rate test has been passed -/
@@ -41,9 +40,11 @@ theorem step_basic (s s' : State) (t c : Nat) (e : Ev) (h : stepCaller s t c e =
     | skip)
 
 
-theorem step_chk (s s' : State) (t c x : Nat) (v : Bool) (h : stepCaller s t c (.chk x v) = some s') :
+theorem step_chk (s s' : State) (t c x : Nat) (v : Bool) (h : stepCaller s t c (.chk x v) = some s')
+    (hf : identFree (s.callers c)) :
     (s.callers c).pc = .check ∧ (v = false → (s'.callers c).pc = .chkNow) := by
   cases hpc : (s.callers c).pc <;> simp only [stepCaller, hpc] at h <;> try (simp at h)
+  all_goals (try (exfalso; simp [identFree, identPc, hpc] at hf; done))
   obtain ⟨hv, rfl⟩ := h
   refine ⟨rfl, fun hf => ?_⟩
   subst hv
@@ -59,9 +60,10 @@ theorem step_connect (s s' : State) (t c x : Nat) (ok od : Bool) (h : stepCaller
 
 set_option maxHeartbeats 4000000 in
 theorem step_into_chkNow (s s' : State) (t c : Nat) (e : Ev) (h : stepCaller s t c e = some s')
+    (hid : s.cfg.ident = []) (hf : identFree (s.callers c))
     (hp : (s'.callers c).pc = .chkNow) : (s.callers c).pc = .chkNow ∨ ∃ x, e = .chk x false := by
-  step_arms
-  all_goals (simp only [setC_same] at hp)
+  step_arms_ni
+  all_goals (try (simp only [setC_same] at hp))
   all_goals (first
     | (left; first | exact hpc | rfl)
     | (exfalso; first
@@ -83,11 +85,12 @@ theorem not_flight_of_pc {k : Caller} (h1 : k.pc ≠ .rcheck) (h2 : k.pc ≠ .co
 
 set_option maxHeartbeats 8000000 in
 theorem step_into_flight (s s' : State) (t c : Nat) (e : Ev) (h : stepCaller s t c e = some s')
+    (hid : s.cfg.ident = []) (hf : identFree (s.callers c))
     (hp : flight (s'.callers c) = true) :
     flight (s.callers c) = true ∨
       ((s.callers c).pc = .chkNow ∧ (∃ x, e = .now x t) ∧ s.lastAttempt + s.cfg.interval ≤ t) := by
-  step_arms
-  all_goals (simp only [setC_same] at hp)
+  step_arms_ni
+  all_goals (try (simp only [setC_same] at hp))
   all_goals (first
     | (left; simpa [flight, hpc] using hp)
     | (right; exact ⟨rfl, ⟨_, by rw [hg]⟩, by rw [← hg]; assumption⟩)
@@ -134,8 +137,10 @@ theorem nochk_extend {log : Log} {e : TEv} {c p : Nat} (h : ∀ m, p < m → m <
   · have : m = log.length := by omega
     subst this; rw [evAt_append_eq]; exact he
 
-theorem tinv_step {cfg : Cfg} {log : Log} {s s' : State} (e : TEv) (hi : TInv cfg log s) (h : step s e = some s') :
+theorem tinv_step {cfg : Cfg} {log : Log} {s s' : State} (e : TEv) (hi0 : Inv log s) (hid : cfg.ident = [])
+    (hi : TInv cfg log s) (h : step s e = some s') :
     TInv cfg (log ++ [e]) s' := by
+  have hid' : s.cfg.ident = [] := by rw [hi.cfg_eq]; exact hid
   have hclk : s.clock ≤ e.t := by
     unfold step at h; split at h
     · simp at h
@@ -228,13 +233,13 @@ theorem tinv_step {cfg : Cfg} {log : Log} {s s' : State} (e : TEv) (hi : TInv cf
     · rw [step_caller_form s e c hwc] at h
       split at h
       · simp at h
-      · rcases step_into_chkNow _ s' e.t c e.ev h hp with hold | ⟨x, hx⟩
+      · rcases step_into_chkNow _ s' e.t c e.ev h hid' (hi0.ni hid' c) hp with hold | ⟨x, hx⟩
         · obtain ⟨p, hpl, hpe, hno⟩ := hi.a4 c hold
           refine ⟨p, by omega, by rw [evAt_append_lt log e p hpl]; exact hpe, nochk_extend hno ?_⟩
           cases hev : e.ev <;> simp only [isChk] <;> try rfl
           rename_i y v
           rw [hev] at h
-          have := (step_chk _ s' e.t c y v h).1
+          have := (step_chk _ s' e.t c y v h (hi0.ni hid' c)).1
           simp only at hold this
           rw [hold] at this; simp at this
         · have hxc : x = c := by rw [hx] at hwc; simpa [Ev.who] using hwc
@@ -264,13 +269,13 @@ theorem tinv_step {cfg : Cfg} {log : Log} {s s' : State} (e : TEv) (hi : TInv cf
     · rw [step_caller_form s e c hwc] at h
       split at h
       · simp at h
-      · rcases step_into_flight _ s' e.t c e.ev h hp with hold | ⟨hchk, ⟨x, hx⟩, hle⟩
+      · rcases step_into_flight _ s' e.t c e.ev h hid' (hi0.ni hid' c) hp with hold | ⟨hchk, ⟨x, hx⟩, hle⟩
         · obtain ⟨p, q, hpq, hql, hpe, hno, hconn⟩ := hi.a5 c hold
           refine hext p q hpq hql hpe hno hconn ?_
           cases hev : e.ev <;> simp only [isChk] <;> try rfl
           rename_i y v
           rw [hev] at h
-          have := (step_chk _ s' e.t c y v h).1
+          have := (step_chk _ s' e.t c y v h (hi0.ni hid' c)).1
           have hfp := (flight_pc hold).1
           simp only at this hfp
           rw [this] at hfp; simp at hfp
@@ -295,20 +300,20 @@ theorem tinv_init (cfg : Cfg) (cbs : List Nat) : TInv cfg [] { cfg := cfg, cbsRe
   · intro c h; simp at h
   · intro c h; simp [flight] at h
 
-theorem tinv_exec_gen {cfg : Cfg} : ∀ (evs pre : List TEv) (s0 s : State), TInv cfg pre s0 → exec s0 evs = some s →
-    TInv cfg (pre ++ evs) s
-  | [], pre, s0, s, hv, h => by simp [exec] at h; subst h; simpa using hv
-  | e :: es, pre, s0, s, hv, h => by
+theorem tinv_exec_gen {cfg : Cfg} (hid : cfg.ident = []) : ∀ (evs pre : List TEv) (s0 s : State), Inv pre s0 → TInv cfg pre s0 →
+    exec s0 evs = some s → TInv cfg (pre ++ evs) s
+  | [], pre, s0, s, _, hv, h => by simp [exec] at h; subst h; simpa using hv
+  | e :: es, pre, s0, s, hi0, hv, h => by
     simp only [exec] at h
     cases hst : step s0 e with
     | none => simp [hst] at h
     | some s1 =>
       simp only [hst] at h
-      have := tinv_exec_gen es (pre ++ [e]) s1 s (tinv_step e hv hst) h
+      have := tinv_exec_gen hid es (pre ++ [e]) s1 s (inv_step e hi0 hst) (tinv_step e hi0 hid hv hst) h
       simpa using this
 
-theorem tinv_exec (cfg : Cfg) (cbs : List Nat) (evs : List TEv) (s : State)
+theorem tinv_exec (cfg : Cfg) (cbs : List Nat) (evs : List TEv) (s : State) (hid : cfg.ident = [])
     (h : exec { cfg := cfg, cbsReg := cbs } evs = some s) : TInv cfg evs s := by
-  simpa using tinv_exec_gen evs [] _ s (tinv_init cfg cbs) h
+  simpa using tinv_exec_gen hid evs [] _ s (inv_init cfg cbs) (tinv_init cfg cbs) h
 
 end Frappy.Comm
